@@ -5,6 +5,7 @@ import Cicada.Model.Subst
 import Cicada.Model.Core
 import Cicada.Spec.C03
 import Cicada.Spec.C01
+import Cicada.Spec.C10
 /-!
 `cicada_model` — runs the Lean model (the very definitions the theorems are about) and the
 reference semantics on the cases of the correspondence protocol.
@@ -142,6 +143,16 @@ def parseArgs (s : String) : List (C01.Style × Str) :=
 def parseCtx : String → C01.Ctx
   | "p" => .pipe | "s" => .semi | "n" => .and | "o" => .or | _ => .alone
 
+def parseSegs (s : String) : List C10.Seg :=
+  if s = "[]" then [] else
+  (s.splitOn ",").filterMap (fun p => match p.splitOn ":" with
+    | ["l", a] => some (.lit (unhex a))
+    | ["v", a] => some (.var (unhex a))
+    | ["b", a] => some (.braced (unhex a))
+    | ["s"] => some .status
+    | ["p"] => some .pid
+    | _ => none)
+
 def answer (stream : String) (f : Array String) : Ans :=
   let g (i : Nat) : String := f.getD i "-"
   match stream with
@@ -178,7 +189,21 @@ def answer (stream : String) (f : Array String) : Ans :=
       { m := m, s := traceOut r.trace ++ "|" ++ toString r.sh, guard := "1" }
   | "xalias" => { m := toksOut (expandAlias (envIn (g 0)).env (toksIn (g 1))) }
   | "xhome" => { m := toksOut (expandHome (envIn (g 0)).env (toksIn (g 1))) }
-  | "xenv" => { m := toksOut (expandEnv (envIn (g 0)).env (toksIn (g 1))) }
+  | "xenv" =>
+    let e := (envIn (g 0)).env
+    let a : Ans := { m := toksOut (expandEnv e (toksIn (g 1))) }
+    if g 2 = "c10" then
+      let w := parseSegs (g 3)
+      let q : C10.Quote := match g 4 with
+        | "d" => .dq
+        | "s" => .sq
+        | _ => .none
+      if toksIn (g 1) ≠ [(q.sep, C10.render w)] then { a with s := "RENDER-MISMATCH" } else
+      if !C10.wordOk w then { a with guard := "0", cls := "outside-statement:word" } else
+      let gate := q = .sq || !C10.hasRef w || envInToken (C10.render w)
+      { a with s := toksOut [C10.specToken e q w], guard := if gate then "1" else "0",
+               cls := if gate then "-" else "gate-rejects-reference" }
+    else a
   | "xbrace" => ansOf toksOut (expandBrace (toksIn (g 0)))
   | "xrange" => { m := toksOut (expandBraceRange (toksIn (g 0))) }
   | "xall" =>
